@@ -365,6 +365,23 @@ def _seed_worker(job):
     return r
 
 
+def _search_worker(job):
+    """one fresh generator round of the failing-input search, oracle only; returns (case, impl output, message) or None"""
+    pid, seed, s, open_ids = job
+    mod = importlib.import_module('props.' + pid.lower())
+    rng = random.Random('%s/search/%d/%d' % (pid, seed, s))
+    cases = list(mod.generate(rng, 'thorough' if s % 2 else 'quick'))
+    got, model, oracle = run_cases(mod, cases, use_driver=False)
+    for c, g, o in zip(cases, got, oracle):
+        if o is not None:
+            kf = mod.known(c) if hasattr(mod, 'known') else None
+            if kf and kf in open_ids:
+                continue
+            c.extra = None
+            return (c, g, o)
+    return None
+
+
 def run_check(pid, tier, seed, t0):
     broken = []          # names of theorems / builds / correspondence ops that no longer check
     notes = []
@@ -516,22 +533,35 @@ def run_check(pid, tier, seed, t0):
         found = None
         budget = 20 if tier == 'quick' else 40
         tsearch = time.time()
-        for s in range(budget):
-            if time.time() - tsearch > 240:
-                break
-            rng = random.Random('%s/search/%d/%d' % (pid, seed, s))
-            cases = [c for c, g, m in corr_fail] if s == 0 else []
-            cases += list(mod.generate(rng, 'thorough' if s % 2 else 'quick'))
-            got, model, oracle = run_cases(mod, cases, use_driver=False)
-            for c, g, o in zip(cases, got, oracle):
+        open_ids1 = [e['id'] for e in open_known]
+        # the disagreeing cases themselves first (cheap), then fresh generator rounds side by side, oracle only
+        cases0 = [c for c, g, m in corr_fail]
+        if cases0:
+            got, model, oracle = run_cases(mod, cases0, use_driver=False)
+            for c, g, o in zip(cases0, got, oracle):
                 if o is not None:
                     kf = mod.known(c) if hasattr(mod, 'known') else None
-                    if kf and any(e['id'] == kf for e in open_known):
-                        continue
-                    found = (c, g, o)
-                    break
-            if found:
-                break
+                    if not (kf and kf in open_ids1):
+                        found = (c, g, o)
+                        break
+        if not found:
+            import multiprocessing
+            limit = 150 if tier == 'quick' else 600
+            with multiprocessing.Pool(min(budget, max(2, (os.cpu_count() or 4) - 2), 12)) as pool:
+                pending = [pool.apply_async(_search_worker, ((pid, seed, s, open_ids1),)) for s in range(budget)]
+                done = [False] * len(pending)
+                while not all(done) and not found and time.time() - tsearch < limit:
+                    for i, a in enumerate(pending):
+                        if not done[i] and a.ready():
+                            done[i] = True
+                            try:
+                                r = a.get()
+                            except Exception:
+                                r = None
+                            if r is not None and found is None:
+                                found = r
+                    time.sleep(0.05)
+                pool.terminate()
         what = broken[:] + ['correspondence op `%s`: impl=%s model=%s' % (c.line, g, m) for c, g, m in corr_fail[:5]]
         if found:
             c, g, o = found
